@@ -38,7 +38,9 @@ func (valdec ptrDecoder) Decode(dec *Decoder, p interface{}, tag byte) {
 		// A back-reference to an object of exactly this pointer type is resolved by aliasing
 		// it. Decoding it into a fresh element would copy the object, and an object that is
 		// still being decoded (a cycle) would be copied unfinished.
-		if o := dec.refer.Read(dec.ReadInt()); reflect.TypeOf(o) == valdec.t.Type1() {
+		if o, ok := dec.readReferred(); !ok {
+			// invalid index: dec.Error is set
+		} else if reflect.TypeOf(o) == valdec.t.Type1() {
 			*ptr = reflect2.PtrOf(o)
 		} else {
 			if *ptr == nil {
